@@ -6,8 +6,11 @@ cd /verif
 patch=/verif/seeded/$id/patch.diff
 [ -f /verif/seeded/$id/patch_rebased.diff ] && patch=/verif/seeded/$id/patch_rebased.diff
 git -C /repo apply $patch || { echo "$id: PATCH DOES NOT APPLY"; exit 3; }
+# (the evidence file describes the unchanged tree: a run against a seeded change must not replace it)
+cp evidence/$prop.json /dev/shm/.evidence-$prop.$$ 2>/dev/null
 out=$(timeout 3000 python3 bin/check $prop $tier 2>&1); rc=$?
 git -C /repo checkout -- . 
+[ -f /dev/shm/.evidence-$prop.$$ ] && mv /dev/shm/.evidence-$prop.$$ evidence/$prop.json
 echo "$id ($prop $tier): exit=$rc $(echo "$out" | grep -c '^VIOLATION') violation lines; $(echo "$out" | grep -m1 -A1 '^VIOLATION' | tail -1 | cut -c1-260)"
 [ $rc -eq 2 ] && echo "$out" | tail -5 | cut -c1-400
 exit 0
